@@ -71,9 +71,10 @@ def pipeline(text, dflt, cov=None):
             outcome = "accepted"
         calls = max(calls, m.calls)
     if dflt == "en":
-        for opts in ((True, True, True), (False, False, True)):
+        for opts, media in (((True, True, True), "text/x.cucumber.gherkin+plain"), ((False, False, True), "text/x.cucumber.gherkin+plain"),
+                            ((False, True, True), "text/x.cucumber.gherkin+markdown"), ((True, True, False), "")):
             ev = gh.GherkinEvents(gh.GherkinEvents.Options(*opts))
-            for env in ev.enum({"source": {"uri": "u", "data": text, "mediaType": "text/x.cucumber.gherkin+plain"}}):
+            for env in ev.enum({"source": {"uri": "u", "data": text, "mediaType": media}}):
                 if not isinstance(env, dict) or len(env) != 1 or next(iter(env)) not in ALLOWED_ENVELOPES:
                     raise AssertionError("stream yielded %r" % (env,))
     return outcome, calls, nlines
